@@ -235,8 +235,9 @@ def run(ctx):
     for name in im.MODELS:
         t = tabs[name]
         r = ctx.rng.fork("c05q-" + name)
-        for sets in ind.DIRECTED.get(name, []):
-            cs, regime = ind.candles_for(r, steps + 1, regime=r.choice(LIN_REGIMES))
+        kind = im.SPECS.get(name, (None, 0, "lin"))[2]
+        for sets in ind.DIRECTED.get(name, []) + ind.source_field_configs(t):
+            cs, regime = ind.candles_for(r, steps + 1, regime=r.choice(LIN_REGIMES if kind == "lin" else OSC_REGIMES))
             cls = case_class(name)
             cases.append(cls(t, sets, cs[0], cs[1:], "values-directed", {"regime": regime}, with_spec=name in im.SPECS))
         cs, regime = ind.candles_for(r, (150 if ctx.tier == "quick" else 500) + 1, regime=r.choice(["walk", "plateau", "alternating"]))
